@@ -671,14 +671,41 @@ def _auto_counter(ctx, fi, g, loop, head):
     """None if `loop` is `while V < E` / `V <= E` (or > / >= downwards) over a local V that every cycle moves
     by a constant of the right sign, V and the names of E not being assigned elsewhere in the loop; else the reason."""
     t = loop.test
+    if isinstance(t, ast.BoolOp) and isinstance(t.op, ast.And):
+        # a conjunction ends as soon as one conjunct does: one bounded-counter conjunct suffices
+        whys = []
+        for v_ in t.values:
+            fake = ast.While(test=v_, body=loop.body, orelse=[])
+            ast.copy_location(fake, loop)
+            w = _auto_counter(ctx, fi, g, fake, head)
+            if w is None:
+                return None
+            whys.append(w)
+        return whys[0]
     if not (isinstance(t, ast.Compare) and len(t.ops) == 1 and isinstance(t.left, ast.Name)):
         return 'test is not `name <cmp> bound`'
     v = t.left.id
     op = t.ops[0]
+    unit_only = False
     if isinstance(op, (ast.Lt, ast.LtE)):
         sign = 1
     elif isinstance(op, (ast.Gt, ast.GtE)):
         sign = -1
+    elif isinstance(op, ast.NotEq) and isinstance(t.comparators[0], ast.Call) and norm(t.comparators[0].func) == 'len' and t.comparators[0].args:
+        # `i != len(X)` ends for steps of exactly 1 from a start that is an index into X (0, or a bisect over X)
+        sign, unit_only = 1, True
+        cont = norm(t.comparators[0].args[0])
+        from .. import expand as ex
+        inside = set(id(x) for x in ast.walk(loop))
+        outer = [x for x in ctx.own_nodes(fi) if isinstance(x, ast.Assign) and id(x) not in inside and
+                 any(isinstance(tg_, ast.Name) and tg_.id == v for tg_ in x.targets) and x.lineno < loop.lineno]
+        if len(outer) != 1:
+            return 'counter of a `!= len(...)` test has no single initialisation before the loop'
+        st0 = ex.expand(ctx, fi, outer[0].value, outer[0])
+        ok0 = (isinstance(st0, ast.Constant) and st0.value == 0) or \
+            (isinstance(st0, ast.Call) and norm(st0.func) in ('bisect.bisect_left', 'bisect.bisect_right', 'bisect.bisect') and st0.args and norm(st0.args[0]) == cont)
+        if not ok0:
+            return 'counter of a `!= len(...)` test does not provably start at an index of that container'
     else:
         return 'comparison is not an ordering'
     bound_names = set(x.id for x in ast.walk(t.comparators[0]) if isinstance(x, ast.Name))
@@ -693,7 +720,7 @@ def _auto_counter(ctx, fi, g, loop, head):
                 return 'bound is modified inside the loop'
             if v in names:
                 ok = isinstance(n, ast.AugAssign) and isinstance(n.value, ast.Constant) and isinstance(n.value.value, int) and n.value.value > 0 and \
-                    ((isinstance(n.op, ast.Add) and sign == 1) or (isinstance(n.op, ast.Sub) and sign == -1))
+                    ((isinstance(n.op, ast.Add) and sign == 1) or (isinstance(n.op, ast.Sub) and sign == -1)) and (not unit_only or n.value.value == 1)
                 if not ok:
                     return 'counter is assigned by `%s`' % norm(n)[:40]
                 steps.append(n)
